@@ -209,7 +209,9 @@ pub async fn run_all<T: Send>(futs: Vec<BoxFut<'_, T>>, overall: Duration, grace
             Err(_) => break,
         }
     }
-    drop(set);
+    // abandoned futures may panic in their destructors (a malicious validator dropped with unvalidated
+    // records does); that must not take the harness down
+    let _ = std::panic::catch_unwind(AssertUnwindSafe(move || drop(set)));
     out.into_iter().map(|o| o.unwrap_or(Out::Timeout)).collect()
 }
 
